@@ -8,7 +8,7 @@
 From Coq Require Import ZArith NArith List Bool.
 From Texel Require Import gen.BookConsts BookGraph.NMap BookGraph.BookGraph BookGraph.Equations
   BookGraph.ScoreFacts BookGraph.CodecProofs BookGraph.LocalProofs BookGraph.LinkProofs
-  BookGraph.UniqueProofs BookGraph.BookTheorems.
+  BookGraph.UniqueProofs BookGraph.FixProofs BookGraph.GlobalProofs BookGraph.DepthProofs BookGraph.BookTheorems.
 Import ListNotations.
 Local Open Scope Z_scope.
 
@@ -109,3 +109,60 @@ Definition C19_fixpoint_statement (requeue : bool) : Prop := fixpoint_statement 
 Theorem C19_fixpoint_refuted : ~ C19_fixpoint_statement false.
 Proof. exact fixpoint_refuted. Qed.
 Print Assumptions C19_fixpoint_refuted.
+
+(** the propagation-order argument (both variants of updateScores): if only the start node and
+    its parents may violate their negamax / expansion-cost equations, updateScores(start) makes
+    every node satisfy them (acyclic successor relation, fuel not exhausted) *)
+Theorem C19_updateScores_propagation : forall (succ : N -> N -> option N) (rk : N -> Z),
+  (forall p m c, succ p m = Some c -> rk p < rk c) ->
+  forall rq bd g, costs_nonneg bd -> Inv succ g ->
+  forall start, In start (bk_keys g) -> wfc (bk_sc g) ->
+  (forall q, In q (bk_keys g) -> q <> start -> ~ In q (map snd (parents g start)) -> good bd g (bk_sc g) q) ->
+  bk_err (updateScores rq bd g start) = 0%N ->
+  wfc (bk_sc (updateScores rq bd g start)) /\
+  forall q, In q (bk_keys g) -> good bd g (bk_sc (updateScores rq bd g start)) q.
+Proof. exact updateScores_good. Qed.
+Print Assumptions C19_updateScores_propagation.
+
+(** updateDepth after a new parent link restores the depth equations everywhere (the relaxation
+    argument): if all depth equations hold, the parents have depths, and the model does not run
+    out of fuel / hit an assert, they hold again after [link] *)
+Theorem C19_link_restores_depth : forall (succ : N -> N -> option N) g p m c,
+  Inv succ g -> In p (bk_keys g) -> In c (bk_keys g) -> succ p m = Some c ->
+  (forall q, 0 <= depth g q) ->
+  (forall x mp, In mp (parents (link g p m c) x) -> depth g (snd mp) < INT_MAX) ->
+  DI g -> bk_err (link g p m c) = 0%N -> DI (link g p m c).
+Proof. exact link_DI. Qed.
+Print Assumptions C19_link_restores_depth.
+
+(** the part of the global statement that is proved, for BOTH variants of updateScores: after
+    every history of addPosToBook / setSearchResult / addPending / removePending operations
+    (chess inputs from an acyclic successor relation in which the side to move alternates, book
+    below 2^31 - 1 nodes, model fuel not exhausted / no assert of the code failing) every node
+    satisfies its negamax equation, both expansion-cost equations, the depth equation and the
+    link equations.  Not covered: the path-error equations (false for the unchanged code, see
+    C19_fixpoint_refuted) and readFromFile. *)
+Theorem C19_fixpoint_partial : forall (succ : N -> N -> option N) (rk : N -> Z) (wtm : N -> bool),
+  (forall p m c, succ p m = Some c -> rk p < rk c) ->
+  (forall p m c, succ p m = Some c -> wtm c = negb (wtm p)) ->
+  forall rq bd, costs_nonneg bd ->
+  forall root addr ops, wtm root = true ->
+  ops_ok succ rq bd (newBook root addr) ops ->
+  let g := run rq bd (newBook root addr) ops in
+  bk_err g = 0%N ->
+  forall q, In q (bk_keys g) ->
+    eq_negamax g q = true /\ eq_cost bd g q true = true /\ eq_cost bd g q false = true /\
+    eq_depth g q = true /\ eq_links g q = true.
+Proof. exact fixpoint_partial_depth. Qed.
+Print Assumptions C19_fixpoint_partial.
+
+(** what the depth equation means: the stored depth is the length of a shortest path from the
+    root along child links (no shorter path exists, one of that length exists) *)
+Theorem C19_depth_is_shortest_distance : forall g,
+  In (bk_root g) (bk_keys g) ->
+  (forall q, In q (bk_keys g) -> eq_depth g q = true /\ eq_links g q = true) ->
+  (forall q, 0 <= depth g q) ->
+  (forall n k, path g (bk_root g) n k -> depth g n <= Z.of_nat k) /\
+  (forall n, In n (bk_keys g) -> depth g n < INT_MAX -> path g (bk_root g) n (Z.to_nat (depth g n))).
+Proof. exact depth_shortest. Qed.
+Print Assumptions C19_depth_is_shortest_distance.
